@@ -30,6 +30,10 @@ RlpEncCanon == mode = "y" => (RlpEnc(y) = RlpCanonAbs(y) /\ Len(RlpEnc(y)) <= Ma
 DerJudgeAgrees == mode = "s" => ((DerDec(s)[1] = "ok") = DerValidJ(s))
 RlpJudgeAgrees == mode = "s" => (/\ (RlpValidJ(s) => RlpDec(s)[1] = "ok")
                                  /\ ((RlpDec(s)[1] = "err") => ~RlpValidJ(s)))
+(* value mode alone, for widths whose encodings are longer than the explored strings: the two-octet long-form length *)
+DerEncCanonV == mode = "y" => DerEnc(y) = DerCanonAbs(y)
+RlpEncCanonV == mode = "y" => RlpEnc(y) = RlpCanonAbs(y)
+ReachTwoLenOctets == ~(mode = "y" /\ DerEnc(y)[2] = H + 2)
 (* vacuity guards: the long forms and the pad octet are inside the explored range *)
 ReachLongDer == ~(mode = "y" /\ DerEnc(y)[2] > H)
 ReachLongRlp == ~(mode = "y" /\ RlpEnc(y)[1] > SS)
